@@ -108,11 +108,41 @@ def r6(ctx: Ctx, rep: Report):
 
 
 # ----------------------------------------------------------------------- R1
-def _writes(p: Path) -> List[Tuple[str, ast.expr, ast.Call]]:
+def _const_of(l):
+    """Python value of a symbolic value that is a constant (int or literal), else NotConst."""
+    if l is None:
+        raise NotConst("no value")
+    if l.is_const():
+        return int(l.const) if l.const.denominator == 1 else l.const
+    t = l.single_term()
+    if t is not None and t[0] == "const":
+        try:
+            return ast.literal_eval(t[1])
+        except (ValueError, SyntaxError):
+            pass
+    raise NotConst(repr(l))
+
+
+def _writes(p: Path, rp: Optional[Replay] = None) -> List[Tuple[str, ast.expr, ast.Call]]:
+    """write_setting(<id>, <value>) calls on the path: (id, value expression, call[, symbolic value]).  With a Replay the
+    id and the value are resolved through locals, loop variables over literal tuples and the parameters of inlined helpers."""
     out = []
-    for ev in p.events:
-        if ev.kind == "call" and (call_chain(ev.node) or ("",))[-1] == "write_setting" and len(ev.node.args) == 2 and isinstance(ev.node.args[0], ast.Constant):
-            out.append((ev.node.args[0].value, ev.node.args[1], ev.node))
+    for i, ev in enumerate(p.events):
+        if ev.kind == "call" and (call_chain(ev.node) or ("",))[-1] == "write_setting" and len(ev.node.args) == 2:
+            a0 = ev.node.args[0]
+            if isinstance(a0, ast.Constant):
+                sid = a0.value
+            elif rp is not None:
+                try:
+                    sid = _const_of(rp.sym_at(i).lin(a0))
+                except NotConst:
+                    continue
+            else:
+                continue
+            if rp is not None:
+                out.append((sid, ev.node.args[1], ev.node, rp.sym_at(i).lin(ev.node.args[1])))
+            else:
+                out.append((sid, ev.node.args[1], ev.node))
     return out
 
 
@@ -126,14 +156,15 @@ def r1_et(ctx: Ctx, rep: Report):
         sel = mode_of_path(ctx, p, fn.params[1])
         if sel is None or p.end == "raise":
             continue
-        ws = [w for w in _writes(p) if w[0] == "work_mode"]
+        rp = Replay(prog, fn, p)
+        ws = [w for w in _writes(p, rp) if w[0] == "work_mode"]
         for m in sel:
             if not ws:
                 if len(sel) == 1 or not any(_writes(p)):
                     seen.setdefault(m, (False, "no write of 'work_mode' in the branch")) if _writes(p) or len(sel) == 1 and m in _handled_names(fn) else None
                 continue
             try:
-                v = prog.consteval(ws[-1][1], fn.module)
+                v = _const_of(ws[-1][3])
             except NotConst:
                 seen[m] = (False, "work_mode value %s is not a constant" % norm(ws[-1][1]))
                 continue
@@ -161,22 +192,88 @@ def _handled_names(fn: FuncInfo) -> List[str]:
 
 
 def _getter(ctx: Ctx, rep: Report, g: FuncInfo, fam: str):
-    src = [norm(s) for s in ast.walk(g.node) if isinstance(s, (ast.Assign, ast.Return))]
-    reads_wm = any("read_setting('work_mode')" in s for s in src)
-    maps = any(re.search(r"OperationMode\(\w+\)", s) for s in src)
-    eco = any("read_setting('eco_mode_1')" in s for s in src)
-    returns = {norm(n.value) for n in ast.walk(g.node) if isinstance(n, ast.Return) and n.value is not None}
-    ok = reads_wm and maps and eco and {"OperationMode.ECO_CHARGE", "OperationMode.ECO_DISCHARGE", "OperationMode.ECO"} <= returns
-    # the refinement into the emulated modes happens only when the work mode is ECO
-    guard = any(isinstance(n, ast.If) and "OperationMode.ECO" in norm(n.test) and "!=" in norm(n.test) and any(isinstance(b, ast.Return) for b in n.body) for n in ast.walk(g.node))
-    order_ok = True
-    rets = [n for n in g.node.body if isinstance(n, ast.If) and any(isinstance(b, ast.Return) for b in n.body)]
-    charge = [n for n in rets if "is_eco_charge_mode" in norm(n.test)]
-    discharge = [n for n in rets if "is_eco_discharge_mode" in norm(n.test)]
-    if charge and discharge:
-        order_ok = norm(charge[0].body[0].value) == "OperationMode.ECO_CHARGE" and norm(discharge[0].body[0].value) == "OperationMode.ECO_DISCHARGE"
-    rep.check(ok and guard and order_ok, "C19.R1", "%s-getter" % fam.lower(), g.loc(), "%s.get_operation_mode maps work_mode through OperationMode and refines ECO by eco_mode_1" % fam,
-              bad="%s.get_operation_mode no longer reads 'work_mode' -> OperationMode(...) and refines ECO through eco_mode_1's is_eco_charge_mode / is_eco_discharge_mode" % fam)
+    """Path rule: every returning path of get_operation_mode returns (a) OperationMode(<work_mode read>) when that is
+    known not to be ECO, or, with the work mode known to be ECO, (b) ECO_CHARGE after eco_mode_1.is_eco_charge_mode()
+    tested true, (c) ECO_DISCHARGE after charge tested false and discharge true, (d) ECO after both tested false;
+    None only from the ValueError handler of the OperationMode(...) conversion."""
+    from ..symx import contradicts, entails_eq, Fact
+    prog = ctx.prog
+    modes = opmode(ctx)
+    verr = prog.ext_class("builtins.ValueError")
+
+    def oracle(node, f):
+        return [verr] if isinstance(node, ast.Call) and norm(node.func) == "OperationMode" else []
+
+    def setting_read(sym, e, sid) -> bool:
+        t = sym.lin(e).single_term()
+        return t is not None and t[0] == "call" and t[1].endswith("read_setting") and len(t[2]) >= 1 and t[2][0] == ("const", repr(sid))
+
+    why = None
+    kinds: Set[str] = set()
+    npaths = 0
+    for p in enumerate_paths(prog, g, oracle):
+        if p.end == "raise":
+            continue
+        npaths += 1
+        rp = Replay(prog, g, p)
+        if p.end != "return" or p.end_node.value is None:
+            why = why or "a path returns nothing [%s]" % p.describe(6)
+            continue
+        val = rp.sym.lin(p.end_node.value)
+        caught = any(ev.kind == "catch" for ev in p.events)
+        if val.single_term() == ("const", "None"):
+            if not caught:
+                why = why or "returns None although the work mode was converted [%s]" % p.describe(6)
+            kinds.add("none")
+            continue
+        # the converted work mode on this path
+        conv = [(i, ev.node) for i, ev in enumerate(p.events) if ev.kind == "call" and norm(ev.node.func) == "OperationMode" and ev.node.args]
+        if not conv or not setting_read(rp.sym_at(conv[0][0]), conv[0][1].args[0], "work_mode"):
+            why = why or "the mode is not OperationMode(<value of read_setting('work_mode')>) [%s]" % p.describe(6)
+            continue
+        mode_l = rp.sym_at(conv[0][0] + 1).lin(conv[0][1])
+        eco_l = Lin.of_const(modes["ECO"])
+        is_eco = entails_eq(rp.facts, mode_l - eco_l)
+        not_eco = contradicts(rp.facts, Fact("eq", mode_l - eco_l))
+        tests = {}
+        for i, ev in enumerate(p.events):
+            if ev.kind == "test" and isinstance(ev.node, ast.Call) and isinstance(ev.node.func, ast.Attribute) \
+                    and ev.node.func.attr in ("is_eco_charge_mode", "is_eco_discharge_mode"):
+                if not setting_read(rp.sym_at(i), ev.node.func.value, "eco_mode_1"):
+                    why = why or "%s is not asked of the eco_mode_1 setting [%s]" % (ev.node.func.attr, p.describe(6))
+                tests.setdefault(ev.node.func.attr, (i, ev.data))
+        ch, dis = tests.get("is_eco_charge_mode"), tests.get("is_eco_discharge_mode")
+        if val == mode_l and not is_eco:
+            if not not_eco:
+                why = why or "returns the raw work mode without knowing that it is not ECO [%s]" % p.describe(6)
+            if tests:
+                pass
+            kinds.add("plain")
+            continue
+        if not is_eco:
+            why = why or "refines the mode although the work mode is not known to be ECO [%s]" % p.describe(6)
+            continue
+        v = val if val.is_const() else (eco_l if val == mode_l else None)
+        if v is None:
+            why = why or "returns %r [%s]" % (val, p.describe(6))
+        elif v.const == modes["ECO_CHARGE"]:
+            if not (ch and ch[1] is True):
+                why = why or "returns ECO_CHARGE without is_eco_charge_mode() being true [%s]" % p.describe(6)
+            kinds.add("charge")
+        elif v.const == modes["ECO_DISCHARGE"]:
+            if not (dis and dis[1] is True and ch and ch[1] is False and ch[0] < dis[0]):
+                why = why or "returns ECO_DISCHARGE without charge tested false and then discharge true [%s]" % p.describe(6)
+            kinds.add("discharge")
+        elif v.const == modes["ECO"]:
+            if not (dis and dis[1] is False and ch and ch[1] is False):
+                why = why or "returns ECO without both recognisers tested false [%s]" % p.describe(6)
+            kinds.add("eco")
+        else:
+            why = why or "returns the constant %s for work mode ECO [%s]" % (v.const, p.describe(6))
+    if why is None and not {"plain", "charge", "discharge", "eco"} <= kinds:
+        why = "paths for %s are missing" % sorted({"plain", "charge", "discharge", "eco"} - kinds)
+    rep.check(why is None, "C19.R1", "%s-getter" % fam.lower(), g.loc(), "%s.get_operation_mode maps work_mode through OperationMode and refines ECO by eco_mode_1 (%d paths)" % (fam, npaths),
+              bad="%s.get_operation_mode: %s" % (fam, why))
 
 
 def r1_es(ctx: Ctx, rep: Report):
@@ -266,7 +363,12 @@ def r2(ctx: Ctx, rep: Report):
                 continue
             has_effect = any(ev.kind == "call" and (call_chain(ev.node) or ("", ""))[0] == "self" and ((call_chain(ev.node) or ("", ""))[-1].startswith("_set_") or (call_chain(ev.node) or ("", ""))[-1] == "write_setting")
                              for ev in p.events)
-            is_range_rejection = p.end == "raise" and any(ev.kind == "test" and "eco_mode_" in norm(ev.node) for ev in p.events)
+            # a ValueError that depends on the power / SoC arguments is the documented range rejection (C18), not "mode rejected"
+            is_range_rejection = False
+            if p.end == "raise" and prog.exc_name(p.end_data) == "ValueError":
+                rpx = Replay(prog, s, p)
+                argv = {("var", a) for a in s.params[2:]}
+                is_range_rejection = any(f.lin is not None and (set(f.lin.terms) & argv) for f in rpx.facts)
             if p.end == "raise" and not is_range_rejection:
                 raising |= sel
             elif has_effect and len(sel) <= 2:
@@ -289,22 +391,24 @@ def r3(ctx: Ctx, rep: Report):
             if not sel or not (sel <= {"ECO_CHARGE", "ECO_DISCHARGE"}) or p.end == "raise":
                 continue
             n += 1
-            ws = _writes(p)
+            rp3 = Replay(prog, s, p)
+            ws = _writes(p, rp3)
             ids = [w[0] for w in ws]
             eco_writes = [w for w in ws if w[0] == "eco_mode_1"]
             want_enc = "encode_charge" if sel == {"ECO_CHARGE"} else ("encode_discharge" if sel == {"ECO_DISCHARGE"} else None)
             ok_enc = len(eco_writes) == 1 and (want_enc is None or want_enc in norm(eco_writes[0][1]))
             offs = {w[0]: w[1] for w in ws if re.fullmatch(r"eco_mode_[234]_switch", w[0])}
             ok_off = set(offs) == {"eco_mode_2_switch", "eco_mode_3_switch", "eco_mode_4_switch"} and all(norm(v) == "0" for v in offs.values())
+            ok_off = ok_off and all(w[3].is_const() and w[3].const == 0 for w in ws if w[0] in offs)
             # the group object used for encoding is the eco_mode_1 setting
             src_ok = any(ev.kind == "stmt" and isinstance(ev.node, (ast.Assign, ast.AnnAssign)) and "self._settings.get('eco_mode_1')" in norm(ev.node) for ev in p.events)
             args_ok = True
-            if eco_writes and want_enc == "encode_charge":
-                call = eco_writes[0][1]
-                args_ok = isinstance(call, ast.Call) and [norm(a) for a in call.args] == [s.params[2], s.params[3]]
-            elif eco_writes and want_enc == "encode_discharge":
-                call = eco_writes[0][1]
-                args_ok = isinstance(call, ast.Call) and [norm(a) for a in call.args] == [s.params[2]]
+            if eco_writes and want_enc in ("encode_charge", "encode_discharge"):
+                # the encoder is called with the caller's power (and SoC), whatever the names they travel under
+                t = eco_writes[0][3].single_term()
+                want_args = (("var", s.params[2]), ("var", s.params[3])) if want_enc == "encode_charge" else (("var", s.params[2]),)
+                args_ok = t is not None and t[0] == "call" and t[1].endswith("." + want_enc) and tuple(t[2]) == want_args
+                ok_enc = ok_enc or (len(eco_writes) == 1 and args_ok)
             rep.check(ok_enc and ok_off and src_ok and args_ok, "C19.R3", "eco-groups:%s:%s" % (famname, "+".join(sorted(sel))), s.loc(),
                       "%s %s: eco_mode_1 written with %s(power%s), groups 2-4 switched off" % (famname, sorted(sel), want_enc, ", soc" if want_enc == "encode_charge" else ""),
                       bad="%s.set_operation_mode(%s): %s" % (famname, sorted(sel), "eco_mode_1 is not written exactly once with %s of the requested power/SoC" % want_enc if not (ok_enc and args_ok) else (
